@@ -177,14 +177,36 @@ func runC09(p *Prog, r *Report, tier string) {
 			if kind == "" {
 				return
 			}
-			tests[kind] = onlyErrorReturnsFrom(i.Block().Succs[badSucc])
+			okT := onlyErrorReturnsFrom(i.Block().Succs[badSucc])
+			// every success return is reached through the passing edge of this test
+			eachInstr(sanityFn, func(x ssa.Instruction) {
+				if rt, ok := x.(*ssa.Return); ok {
+					if n, has := retErrNil(rt); has && n && !edgeDominates(i.Block(), 1-badSucc, x.Block()) {
+						okT = false
+					}
+				}
+			})
+			tests[kind] = okT
 		})
 		for _, k := range []string{"template known", "field count equal", "minimum length"} {
 			ok, present := tests[k]
 			r.Check(present && ok, "R-GATE.sanity-tests", fnKey(sanityFn)+": test '"+k+"'", p.pos(sanityFn.Pos()), "present, failing edge returns an error",
-				"the test is missing or its failing edge does not return an error: data sets for unknown templates / wrong field counts are transmitted", true)
+				"the test is missing, its failing edge does not return an error, or the check can return success without passing it (e.g. an early return in one configuration): data sets for unknown templates / wrong field counts are transmitted", true)
 		}
 	}
+	// undefined set type: SendSet refuses it first, and a reset set always has it
+	okUndef := false
+	if i := ifOf(ss.Blocks[0]); i != nil {
+		if b, ok := i.Cond.(*ssa.BinOp); ok && b.Op == token.EQL {
+			if c, ok := b.X.(*ssa.Call); ok && calleeName(&c.Call) == "iface:pkg/entities.Set.GetSetType" {
+				if v, ok := constInt(b.Y); ok && v == 255 && onlyErrorReturnsFrom(ss.Blocks[0].Succs[0]) {
+					okUndef = true
+				}
+			}
+		}
+	}
+	r.Check(okUndef, "R-GATE.undefined-type", fnKey(ss)+": undefined set type refused first", p.pos(ss.Pos()), "GetSetType() == Undefined => error before anything else", "SendSet does not refuse a set of undefined type before doing anything else", true)
+	checkResetOnAllPaths(p, r, "R-RESET", []string{"setType"})
 	// (3) size gate
 	var cm *ssa.Function
 	if bi := msgBuilder(p); bi != nil {
